@@ -174,3 +174,95 @@ def rule_dynamic_clause_templates(ctx):
             if len(els) >= 1 and all(e[0] == "-" for e in els) and len(allocs) == 2 and sems == {"CO", "PR"}:
                 ok = True
         r.check(ok and len(adds) == 1, b.id, "no-a-implies-not-Pa", "creating an argument under CO|PR adds (-a or -P_a) on its two fresh variables", "new_argument does not add the clause -a or -P_a on the two freshly allocated variables under CO|PR", b.loc())
+
+
+def rule_dynamic_variable_registration(ctx):
+    """C08: what both dynamic encoders do when an argument is created or removed"""
+    prog = ctx.prog
+    from .. import tags
+
+    r = ctx.rule(
+        "dynamic-variable-registration",
+        "both dynamic encoders: (a) the attacker ids handed to the clause functions are *all* attackers (no filter between `iter_attacks_to` and "
+        "the id list - a self-attack is an attack); (b) removing an argument adds exactly the positive unit clause of its variable (the variable "
+        "is fixed true so that the clauses still mentioning it are satisfied); (c) wherever an argument's variable is entered in the id->variable "
+        "table, the variable->argument table is told on the same path (its kind `Argument(id)`), whatever the semantics: models are decoded "
+        "through that table",
+    )
+    cx = cnf.Ctx(prog)
+    encs = [p for p, a in prog.adts.items() if p.startswith("dynamics::") and p.endswith("::DynamicConstraintsEncoder")]
+    if not r.require_anchor(len(encs) >= 2, "the two DynamicConstraintsEncoder types"):
+        return
+    # (a)
+    n_a = 0
+    for b in prog.lib_bodies():
+        if b.kind == "closure" or not b.impl or b.impl.get("self_adt") not in encs:
+            continue
+        for s in b.calls():
+            if not callee_matches(callee_of(s), r"AAFramework::iter_attacks_to$"):
+                continue
+            # consumers of this iterator that end in a collected id list
+            for s2 in b.calls():
+                if callee_decl(callee_of(s2)) != "core::iter::traits::iterator::Iterator::collect":
+                    continue
+                seen, calls, _ = data_deps(b, s2.node["args"][0])
+                if not any((c.bb, c.si) == (s.bb, s.si) for c in calls):
+                    continue
+                n_a += 1
+                filt = [c for c in calls if callee_decl(callee_of(c)) in tags.FILTERING]
+                r.check(not filt, "%s|attackers" % b.id, "filtered:%s" % sorted({callee_decl(callee_of(c)).rsplit("::", 1)[-1] for c in filt}), "the attacker list is the whole `iter_attacks_to` iteration", "the attackers of the re-encoded argument are filtered (%s): an attack that is dropped here is missing from the clauses" % sorted({callee_decl(callee_of(c)).rsplit("::", 1)[-1] for c in filt}), s2.loc())
+    r.floor(n_a, 1, "attacker lists collected in the dynamic encoders")
+    # (b)
+    n_b = 0
+    for p in sorted(encs):
+        rm = prog.lib(p + "::remove_argument")
+        if not r.require_anchor(rm, p + "::remove_argument"):
+            continue
+        adds = [s for s in rm.calls() if callee_matches(callee_of(s), r"sat_solver::SatSolver::add_clause$")]
+        n_b += 1
+        shapes = []
+        for s in adds:
+            els = cnf.clause_elements(cx, rm, s.node["args"][1])
+            shapes.append(sorted("%s%s" % (sg, kd[0]) for sg, kd, nd, m in els))
+        # ... or through a helper of the encoder that adds the unit clause of a literal it is given
+        for s in rm.calls():
+            c = callee_of(s)
+            t = prog.body_for_callee(c, rm) if c and c.get("decl") != "<indirect>" else None
+            if t is None or t.kind == "closure" or not t.impl or t.impl.get("self_adt") != p:
+                continue
+            for s2 in t.calls():
+                if not callee_matches(callee_of(s2), r"sat_solver::SatSolver::add_clause$"):
+                    continue
+                els = cnf.clause_elements(cx, t, s2.node["args"][1])
+                if len(els) == 1 and els[0][1][0] == "lparam":
+                    k = els[0][1][1][1]
+                    if k - 1 < len(s.node["args"]):
+                        lits = cnf.lits_of_literal(cx, rm, s.node["args"][k - 1])
+                        sign = els[0][0]
+                        shapes.append(sorted("%s%s" % (sg if sign == "+" else cnf._flip(sg), kd[0]) for sg, kd, nd in lits))
+                        adds.append(s)
+        r.check(shapes == [["+table"]], rm.id, "retirement-clause:%s" % shapes, "removal adds the positive unit clause of the removed argument's variable", "remove_argument adds %s instead of the positive unit clause of the removed argument's variable" % shapes, (adds[0].loc() if adds else rm.loc()))
+    # (c)
+    n_c = 0
+    for b in prog.lib_bodies():
+        fnb = prog.enclosing_fn(b)
+        if not fnb.impl or fnb.impl.get("self_adt") not in encs:
+            continue
+        for s in b.calls():
+            if callee_decl(callee_of(s)) != "alloc::vec::Vec::push":
+                continue
+            if "Option<usize>" not in str(callee_of(s).get("substs")):
+                continue
+            # pushes Some(var) on the id -> variable table (a field of self)
+            is_some = any(o.kind == "agg" and o.data.get("variant") == "Some" for o in origins(b, s.node["args"][1], transparent=()))
+            if not is_some:
+                continue
+            n_c += 1
+            kinds = []
+            for st in b.sites():
+                nd = st.node
+                if st.si is not None and nd["k"] == "assign" and nd["rv"]["k"] == "aggregate" and nd["rv"]["agg"].get("variant") == "Argument" and "SolverVarType" in (nd["rv"]["agg"].get("path") or ""):
+                    kinds.append(st)
+            paired = [k for k in kinds if (b.dominates(k, s) and b.postdominates(s, k)) or (b.dominates(s, k) and b.postdominates(k, s))]
+            r.check(bool(paired), "%s|table-entry" % b.id, "kind-not-registered", "the variable's kind `Argument(id)` is registered on the same path as the id->variable entry", "an argument's variable is entered in the id->variable table but its kind `Argument(id)` is registered only on some paths: models of the other paths are decoded without this argument", s.loc())
+    r.floor(n_c, 2, "id->variable table entries made for new arguments")
